@@ -315,8 +315,9 @@ def run(report, prog, tier):
     rule_t34(report, prog)
     from .c01 import rule_raw_capacity
     rule_raw_capacity(report, prog, rule='C03-R4')
-    from .c01 import rule_tt2_memory_units
+    from .c01 import rule_tt2_memory_units, rule_image_flush
     rule_tt2_memory_units(report, prog, rule='C03-R4')
+    rule_image_flush(report, prog, rule='C03-R4')
     report.trusted += ['product memory maps: Topaz 120 byte (data 8..103), Topaz-512 (data 8..103 and 128..511), NTAG user memory from page 4',
                        'control TLV semantics of NFC Forum T1T/T2T']
     report.assumptions += ['the capacity gate of C01-R1 keeps value bytes below the data-area end (value-level argument, not decided here)']
